@@ -31,6 +31,7 @@ def gen(tier, seed):
                 "P": pts_json(rand_points(rnd, n, dim)),
                 "W": fsl(rand_weights(rnd, n)) if rational else None,
                 "nodes": fsl(nodes),
+                "seqnodes": fsl(rnd.sample(nodes[:-2], len(nodes) - 2)),     # in range, shuffled
             })
     return cases
 
@@ -43,16 +44,30 @@ def impl(case):
     if case["W"] is not None:
         curve.weights = nums(case["W"])
     nodes = nums(case["nodes"])
+    # the same data as floats (and ints where integral) is evaluated first in the same process: results for
+    # exact data must not depend on what was evaluated before (memo tables keyed by equal-comparing numbers)
+    import implib
+    def _other(conv):
+        c2 = Curve([conv(u) for u in U], [conv(pt[0]) for pt in case_pts])
+        c2(conv(nodes[len(nodes) // 2]))
+    case_pts = [nums(pt) for pt in case["P"]]
+    capture(lambda: _other(float))
+    if all(u.denominator == 1 for u in U):
+        capture(lambda: _other(int))
+    implib.FLOATS.clear()
     scal = [capture(lambda u=u: out_point(curve(u))) for u in nodes]
-    seq = capture(lambda: [out_point(v) for v in curve(tuple(nodes))])
-    return {"p": int(curve.degree), "scal": scal, "seq": seq}
+    seqnodes = nums(case["seqnodes"])
+    seq = capture(lambda: [out_point(v) for v in curve(tuple(seqnodes))])
+    seq_all = capture(lambda: [out_point(v) for v in curve(tuple(nodes))])
+    return {"p": int(curve.degree), "scal": scal, "seq": seq, "seq_all": seq_all}
 
 
 def emit(case, out):
+    # exact input must give exact output: a float anywhere in the results fails the case (wf_b [] = false)
     return ctuple(
-        cql(case["U"]), cnat(out["p"]), cqll(case["P"]), copt(case["W"], cql), cql(case["nodes"]),
+        cql(case["U"] if not out.get("_floats") else []), cnat(out["p"]), cqll(case["P"]), copt(case["W"], cql), cql(case["nodes"]),
         clist(out["scal"], lambda r: cres(r, cql)),
-        cres(out["seq"], cqll))
+        cql(case["seqnodes"]), cres(out["seq"], cqll), cres(out["seq_all"], cqll))
 
 
 def describe(case):
@@ -67,4 +82,4 @@ def nontrivial(case):
 
 
 def evaluations(case):
-    return len(case["nodes"]) + 1
+    return 2 * len(case["nodes"])
